@@ -49,6 +49,21 @@ SETS = {
             ("_detail.logging", ALL), ("__main__", "_main"), ("coverage.__main__", "cli"), ("finder", "find"), ("platform", "Platform.find_include_file")],
 }
 
+# Semantic dependence between the properties (a property whose statement is phrased in terms of what a conforming
+# preprocessor / compiler does is falsified by a defect in any mechanism upstream of it):
+#   C02 (#if value)            <- macro expansion (C03)
+#   C01 (branch selection)     <- #if value (C02), macro expansion (C03), what an #include makes visible (C04), which
+#                                 physical lines form a directive (C05)
+#   C17 (Fortran: "select lines exactly as they do in C files")  <- C01 and everything C01 depends on
+#   C13 ("include directories ... as a compiler would")          <- the resolver (C04: platform)
+_BASE = {k: list(v) for k, v in SETS.items()}
+SETS["C02"] = _BASE["C02"] + _BASE["C03"]
+SETS["C01"] = _BASE["C01"] + _BASE["C02"] + _BASE["C03"] + [x for x in _BASE["C04"] if x[0] in ("platform", "preprocessor")] + [("file_source", "c_*"), ("file_source", "one_space_line.*"), ("file_source", "line_info.*")]
+SETS["C17"] = _BASE["C17"] + SETS["C01"]
+SETS["C13"] = _BASE["C13"] + [("platform", "Platform.find_include_file"), ("platform", "Platform.add_include_path"), ("preprocessor", "IncludeNode.*")]
+for _k in SETS:
+    SETS[_k] = list(dict.fromkeys(SETS[_k]))
+
 
 def _expand(repo, spec):
     out = []
